@@ -137,6 +137,9 @@ var c09Stmts = []string{
 	"this.svc.call();",
 	"super.equals(null);",
 	"new Foo<>() {\n};",
+	"Runnable rr = new Runnable() {\n    public void run() {\n        Object made = new Object();\n    }\n};",
+	"java.util.concurrent.Callable<Object> cc = new java.util.concurrent.Callable<>() {\n    public Object call() {\n        return new Object() {\n            int deep = new int[1].length;\n        };\n    }\n};",
+	"consume(new Object() {\n    void a() {\n        consume(new Object());\n    }\n    void b() {\n    }\n});",
 	"new java.util.HashMap<String, java.util.List<Integer>>() {{\n    put(\"a\", null);\n}};",
 }
 
